@@ -30,19 +30,22 @@ category: Ordered
 _RULES_PATH = {}
 
 
-def rules_path(kind='rules'):
+_COPY = [0]
+
+
+def rules_path(kind='rules', i=0):
+    """A copy of the rules file that NO earlier command run has loaded (copy number i, written on first use under a directory
+    created before the analysis starts; names come from a counter).  What an earlier command left in a cache keyed by the path
+    can therefore neither help nor hide anything."""
     if kind not in _RULES_PATH:
-        d = tempfile.mkdtemp(prefix='verif_wiring_')
-        if kind == 'rules':
-            p = os.path.join(d, 'merchants.rules')
-            with open(p, 'w') as f:
-                f.write(RULES_TEXT)
-        else:
-            p = os.path.join(d, 'merchant_categories.csv')
-            with open(p, 'w') as f:
-                f.write('Pattern,Merchant,Category,Subcategory\nAMAZON,AmazonCsv,ShoppingCsv,\n')
-        _RULES_PATH[kind] = p
-    return _RULES_PATH[kind]
+        _RULES_PATH[kind] = tempfile.mkdtemp(prefix='verif_wiring_')
+    d = os.path.join(_RULES_PATH[kind], 'c%06d' % i)
+    p = os.path.join(d, 'merchants.rules' if kind == 'rules' else 'merchant_categories.csv')
+    if not os.path.exists(p):
+        os.makedirs(d, exist_ok=True)
+        with open(p, 'w') as f:
+            f.write(RULES_TEXT if kind == 'rules' else 'Pattern,Merchant,Category,Subcategory\nAMAZON,AmazonCsv,ShoppingCsv,\n')
+    return p
 
 
 class Exit(Exception):
@@ -129,6 +132,8 @@ class Recorder:
         self.calls = []
         self.printed = []
         self.sources = None
+        self.copy = _COPY[0]
+        _COPY[0] += 1
 
     # ----- config -----
     def load_config(self, config_dir, settings_file='settings.yaml', *_a, **_k):
@@ -140,9 +145,9 @@ class Recorder:
         cfg = {'data_sources': srcs, '_warnings': warnings, 'year': 2024, 'rule_mode': self.rule_mode, '_config_dir': config_dir,
                'currency_format': '${amount}', 'sections': ('VIEWS' if self.views else None), '_views_file': None}
         if self.rules_kind == 'rules':
-            cfg['_merchants_file'], cfg['_merchants_format'] = rules_path('rules'), 'new'
+            cfg['_merchants_file'], cfg['_merchants_format'] = rules_path('rules', self.copy), 'new'
         elif self.rules_kind == 'csv':
-            cfg['_merchants_file'], cfg['_merchants_format'] = rules_path('csv'), 'csv'
+            cfg['_merchants_file'], cfg['_merchants_format'] = rules_path('csv', self.copy), 'csv'
         else:
             cfg['_merchants_file'], cfg['_merchants_format'] = None, None
         return cfg
